@@ -41,6 +41,9 @@ func init() {
 				{File: "internal/flood/flood.go", Old: "\tseenCache map[AdvertisementKey]*SeenAdvertisement\n", New: "\tseenCache map[AdvertisementKey]*SeenAdvertisement\n\thighest   map[identity.AgentID]uint64\n"},
 				{File: "internal/flood/flood.go", Old: "\t// Check if we've already seen this and mark as seen atomically\n\tf.mu.Lock()\n\tif existing, ok := f.seenCache[key]; ok {", New: "\t// Check if we've already seen this and mark as seen atomically\n\tf.mu.Lock()\n\tif f.highest == nil {\n\t\tf.highest = map[identity.AgentID]uint64{}\n\t}\n\tif sequence < f.highest[originAgent] {\n\t\tf.mu.Unlock()\n\t\treturn false\n\t}\n\tf.highest[originAgent] = sequence\n\tif existing, ok := f.seenCache[key]; ok {"},
 			}},
+			{Name: "advertisement not forwarded when no table changed (seed C14-d)", ExpectRule: "C14.R3", ExpectKey: "HandleRouteAdvertise", Edits: []Edit{
+				{File: "internal/flood/flood.go", Old: "\tif len(cidrEntries) > 0 {\n\t\tf.routeMgr.ProcessRouteAdvertise(fromPeer, originAgent, sequence, cidrEntries, path, encPath)\n\t}\n", New: "\tupdated := 0\n\tif len(cidrEntries) > 0 {\n\t\tupdated += len(f.routeMgr.ProcessRouteAdvertise(fromPeer, originAgent, sequence, cidrEntries, path, encPath))\n\t}\n\tif updated == 0 && len(domainEntries) == 0 {\n\t\treturn true\n\t}\n"},
+			}},
 			{Name: "withdrawals not forwarded while a wake command is pending", ExpectRule: "C14.R3", ExpectKey: "HandleRouteWithdraw", Edits: []Edit{
 				{File: "internal/flood/flood.go", Old: "\t// Flood withdrawal to other peers\n", New: "\tf.pendingWakeMu.RLock()\n\tbusy := f.pendingWakeCmd != nil\n\tf.pendingWakeMu.RUnlock()\n\tif busy {\n\t\treturn true\n\t}\n\t// Flood withdrawal to other peers\n"},
 			}},
@@ -173,7 +176,7 @@ func runC14(p *kit.Program, r *kit.Report) {
 			}
 			if !own {
 				replayOrd[l.typ.Obj().Name()]++
-				key = fmt.Sprintf("full-table replay %s literal #%d Sequence", l.typ.Obj().Name(), replayOrd[l.typ.Obj().Name()])
+				key = fmt.Sprintf("full-table replay %s literal Sequence", l.typ.Obj().Name()) // no ordinal: stable when helpers are split off; a second such literal gets the report's "#2" suffix
 			}
 		}
 		if !hasSeq || oa == nil {
